@@ -31,6 +31,8 @@ def shape_labels(an) -> list[str]:
         labs.append("two_modules")
     if an.spec.get("rels"):
         labs.append("relations")
+    if an.spec.get("tops"):
+        labs.append("bodies_under_top_level_if")
     if any(b.get("rdep") for b in an.bodies.values()):
         labs.append("run_dependent_ready")
     if any(b.get("val") is not None for b in an.bodies.values()):
